@@ -3,6 +3,7 @@ package props
 import (
 	"fmt"
 	"reflect"
+	"strings"
 
 	"verif/harness/core"
 	"verif/harness/explore"
@@ -102,6 +103,39 @@ func extraValues(self *rh.Value) []struct {
 		{"unknown-class object", &rh.Value{K: rh.Object, Class: unknownClass, Elems: []*rh.Value{rh.IntV(5)}}},
 		{"ref to the object itself", self},
 		{"registered-class object", &rh.Value{K: rh.Object, Class: innerClass, Elems: []*rh.Value{rh.IntV(8), rh.StringV("reg")}}},
+	}
+}
+
+// extraForms are further payloads of an unknown field: every wire form of the numbers, strings and binaries of
+// every size class, empty and typed containers, and nested skipping. They are tried at every wire position of the
+// identity and the reversed definition order (the core extraValues are tried in the full product).
+func extraForms() []struct {
+	name string
+	v    *rh.Value
+} {
+	return []struct {
+		name string
+		v    *rh.Value
+	}{
+		// every wire form of the numbers
+		{"int 1-octet", rh.IntV(0)}, {"int 2-octet", rh.IntV(-2000)}, {"int 3-octet", rh.IntV(200000)}, {"int 5-octet", rh.IntV(1 << 30)},
+		{"long 1-octet", rh.LongV(3)}, {"long 2-octet", rh.LongV(-2000)}, {"long 3-octet", rh.LongV(200000)}, {"long 5-octet", rh.LongV(3000000)}, {"long 9-octet negative", rh.LongV(-(1 << 50))},
+		{"double zero", rh.DoubleV(0)}, {"double one", rh.DoubleV(1)}, {"double byte", rh.DoubleV(100)}, {"double short", rh.DoubleV(30000)}, {"double 9-octet", rh.DoubleV(0.1)},
+		{"bool false", rh.BoolV(false)}, {"date in minutes", rh.DateV(1577934240000)},
+		{"empty string", rh.StringV("")}, {"string of 40 chars", rh.StringV(strings.Repeat("m", 40))}, {"string of 1100 chars", rh.StringV(strings.Repeat("l", 1100))}, {"string in three chunks", rh.StringV(strings.Repeat("é", 70000))},
+		{"empty binary", rh.BinaryV([]byte{})}, {"binary of 20 octets", rh.BinaryV(make([]byte, 20))}, {"binary of 1100 octets", rh.BinaryV(make([]byte, 1100))}, {"binary in chunks", rh.BinaryV(make([]byte, 70000))},
+		{"empty list", &rh.Value{K: rh.List}}, {"empty map", &rh.Value{K: rh.Map}},
+		{"typed map", &rh.Value{K: rh.Map, Typed: true, Type: "com.example.M", Elems: []*rh.Value{rh.IntV(1), rh.StringV("v")}}},
+		{"list of 9 elements", &rh.Value{K: rh.List, Elems: []*rh.Value{rh.IntV(1), rh.IntV(2), rh.IntV(3), rh.IntV(4), rh.IntV(5), rh.IntV(6), rh.IntV(7), rh.IntV(8), rh.IntV(9)}}},
+		// three kinds of skipping nested in each other: a registered-class object whose own definition has an
+		// unknown field holding an unknown-class object, followed by another unknown-class object
+		{"nested skipping", &rh.Value{K: rh.List, Elems: []*rh.Value{
+			{K: rh.Object, Class: &rh.Class{Name: "Inner", Fields: []string{"a", "zzNested", "s"}}, Elems: []*rh.Value{rh.IntV(8),
+				{K: rh.Object, Class: &rh.Class{Name: "com.example.Deep", Fields: []string{"d", "e"}}, Elems: []*rh.Value{rh.IntV(1), {K: rh.Map, Elems: []*rh.Value{rh.StringV("k"), {K: rh.Object, Class: unknownClass, Elems: []*rh.Value{rh.IntV(6)}}}}}},
+				rh.StringV("reg")}},
+			{K: rh.Object, Class: unknownClass, Elems: []*rh.Value{rh.IntV(5)}},
+			{K: rh.Object, Class: innerClass, Elems: []*rh.Value{rh.IntV(9), rh.StringV("after")}},
+		}}},
 	}
 }
 
@@ -217,6 +251,53 @@ func init() {
 					c.Cover("defs:" + tname(tv))
 				}})
 			}
+			for _, tv := range bindingTargets() {
+				tv := tv
+				n := reflect.TypeOf(tv).Elem().NumField()
+				us = append(us, core.Unit{Name: fmt.Sprintf("extra-forms:%s", tname(tv)), Cost: n * 5, Run: func(c *core.Ctx) {
+					tm, nm, _ := Maps(tv)
+					for _, rev := range []bool{false, true} {
+						for pos := 0; pos <= n; pos++ {
+							for _, ev := range extraForms() {
+								if !c.Begin() {
+									continue
+								}
+								c.NontrivialN(1)
+								c.Res.States++
+								c.Res.Transitions++
+								obj := zoo.NewDenoter(nm).Denote(tv)
+								cls := &rh.Class{Name: obj.Class.Name}
+								var vals []*rh.Value
+								for i := 0; i < n; i++ {
+									fi := i
+									if rev {
+										fi = n - 1 - i
+									}
+									if i == pos {
+										cls.Fields = append(cls.Fields, "zzUnknown")
+										vals = append(vals, ev.v)
+									}
+									cls.Fields = append(cls.Fields, obj.Class.Fields[fi])
+									vals = append(vals, obj.Elems[fi])
+								}
+								if pos == n {
+									cls.Fields = append(cls.Fields, "zzUnknown")
+									vals = append(vals, ev.v)
+								}
+								e := rh.NewEncoder(nil)
+								e.Top(&rh.Value{K: rh.Object, Class: cls, Elems: vals})
+								desc := fmt.Sprintf("%s (reversed definition order=%v) with an unknown field holding %s at wire position %d", tname(tv), rev, ev.name, pos)
+								if _, err := rh.ParseOne(e.Out); err != nil {
+									c.Report(&core.Violation{Stage: "selfcheck", Kind: "harness", Shape: "R1", Message: err.Error(), Case: desc})
+									continue
+								}
+								c.Outcome(decodeAgainst(c, e.Out, tv, tm, nm, desc, "defs extra-form:"+ev.name, nil))
+							}
+						}
+					}
+					c.Cover("extra-forms")
+				}})
+			}
 			// an unknown field holds an instance of a registered class and a LATER known field refers back to it
 			us = append(us, core.Unit{Name: "unknown-field-target-of-later-ref", Cost: 5, Run: func(c *core.Ctx) {
 				type holder = B7
@@ -271,7 +352,11 @@ func init() {
 					target := &B3{A: 13, S: "s3", F: true}
 					tm, nm, _ := Maps(target)
 					c1t := reflect.TypeOf(zoo.C1{})
-					for p := 0; p <= 40; p++ {
+					ps := []int{63, 64, 65, 97, 98, 99, 100, 127, 128, 129, 254, 255, 256, 257, 300, 1000}
+					for p := 40; p >= 0; p-- {
+						ps = append([]int{p}, ps...)
+					}
+					for _, p := range ps {
 						for _, long := range []bool{false, true} {
 							if !long && p > 15 {
 								continue
@@ -348,7 +433,7 @@ func init() {
 			return us
 		},
 		RequireCover: func(string) []string {
-			return []string{"defs:B1", "defs:B5", "defs:B6", "positions:hoist=true", "positions:hoist=false", "extra:unknown-class object", "extra:ref to the object itself", "extra:map", "extra:null", "extra:registered-class object", "unknown-field-target"}
+			return []string{"extra-forms", "defs:B1", "defs:B5", "defs:B6", "positions:hoist=true", "positions:hoist=false", "extra:unknown-class object", "extra:ref to the object itself", "extra:map", "extra:null", "extra:registered-class object", "unknown-field-target"}
 		},
 	})
 }
